@@ -41,6 +41,31 @@ impl Deadline for Dl {
         }
     }
 }
+/// A deadline whose conversion — executed by the scheduler right after it has read the current time — signals the
+/// driver thread and parks until released (or 60 ms): makes "a Scheduler request from another thread concurrent
+/// with a step" reproducible.
+struct Park {
+    state: Mutex<(bool, bool)>, // (entered, released)
+    cv: std::sync::Condvar,
+}
+struct ParkDl(Dl, Arc<Park>);
+impl Deadline for ParkDl {
+    fn into_time(self, now: MonotonicTime) -> MonotonicTime {
+        let mut g = self.1.state.lock().unwrap();
+        g.0 = true;
+        self.1.cv.notify_all();
+        let deadline = std::time::Instant::now() + Duration::from_millis(60);
+        while !g.1 {
+            let left = deadline.saturating_duration_since(std::time::Instant::now());
+            if left.is_zero() {
+                break;
+            }
+            g = self.1.cv.wait_timeout(g, left).unwrap().0;
+        }
+        drop(g);
+        self.0.into_time(now)
+    }
+}
 fn ns(t: MonotonicTime) -> u64 {
     t.duration_since(MonotonicTime::EPOCH).as_nanos() as u64
 }
@@ -175,10 +200,10 @@ fn sched_err(e: SchedulingError) -> &'static str {
     }
 }
 
-fn do_sched(
+fn do_sched<D: Deadline>(
     s: &Scheduler,
     addr: &Address<M>,
-    dl: Dl,
+    dl: D,
     kind: &str,
     period: u64,
     aid: u64,
@@ -308,9 +333,52 @@ fn run_case(lines: Vec<String>, hints: Arc<Mutex<Vec<String>>>, resp: Arc<Mutex<
     let push = |s: String| resp.lock().unwrap().push(s);
 
     for l in &lines {
-        let w: Vec<&str> = l.split_whitespace().collect();
+        let mut w: Vec<&str> = l.split_whitespace().collect();
         let log_start = sh.log.lock().unwrap().len();
         let mut hint = String::new();
+        // `race m <m> <dk> <dl> <kind> <p> <aid> <key> then <step|until ..>`: the request is issued from another thread
+        // and is inside the scheduler (deadline conversion entered) when the stepping call starts
+        let mut race: Option<(std::thread::JoinHandle<&'static str>, Arc<Park>, &'static str, u64, u64)> = None;
+        let wc = w.clone();
+        if let (["race", "m", m, dk, dl, kind, p, a, k, "then", rest @ ..], Some(b)) = (wc.as_slice(), bench.as_mut()) {
+            let aid: u64 = a.parse().unwrap();
+            let key: u64 = k.parse().unwrap();
+            let period: u64 = p.parse().unwrap();
+            let m: usize = m.parse().unwrap();
+            drv.insert(aid);
+            let d = parse_dl(dk, dl);
+            let now = ns(b.sim.time());
+            let t = ns(d.into_time(b.sim.time()));
+            let periodic = *kind == "per" || *kind == "kper";
+            let expect = if periodic && period == 0 { "null-period" } else if t <= now { "invalid-time" } else { "ok" };
+            if expect == "ok" {
+                let keyed = *kind == "keyed" || *kind == "kper";
+                let n = mon.rank.len();
+                mon.rank.insert(aid, n);
+                if keyed {
+                    mon.key_of_aid.insert(aid, key);
+                }
+                if periodic {
+                    mon.series.insert(aid, (t, period, keyed.then_some(key), m));
+                } else {
+                    mon.oneshots.insert(aid, (t, keyed.then_some(key)));
+                }
+            }
+            let park = Arc::new(Park { state: Mutex::new((false, false)), cv: std::sync::Condvar::new() });
+            let (sc, ad, pk, sh2, kind2) = (b.sched.clone(), b.addrs[m].clone(), park.clone(), sh.clone(), kind.to_string());
+            let h = std::thread::spawn(move || do_sched(&sc, &ad, ParkDl(d, pk), &kind2, period, aid, key, &sh2));
+            {
+                let mut g = park.state.lock().unwrap();
+                let until = std::time::Instant::now() + Duration::from_secs(2);
+                while !g.0 && std::time::Instant::now() < until {
+                    g = park.cv.wait_timeout(g, Duration::from_millis(50)).unwrap().0;
+                }
+            }
+            race = Some((h, park, expect, aid, t));
+            tags.lock().unwrap().push("race".into());
+            let rest: Vec<&str> = rest.to_vec();
+            w = rest;
+        }
         let r: String = match w.as_slice() {
             ["case", "sched", n, "tol", tl, "t0", t, "exec", ex, "cap", cp] => {
                 cap = cp.parse().unwrap();
@@ -653,6 +721,27 @@ fn run_case(lines: Vec<String>, hints: Arc<Mutex<Vec<String>>>, resp: Arc<Mutex<
             }
             _ => "bad-op".into(),
         };
+        let r = match race {
+            Some((h, park, expect, aid, t)) => {
+                {
+                    let mut g = park.state.lock().unwrap();
+                    g.1 = true;
+                    park.cv.notify_all();
+                }
+                let r1 = h.join().unwrap_or("panic");
+                if let Some(b) = bench.as_ref() {
+                    let now = ns(b.sim.time());
+                    if r1 == "ok" && t <= now && !mon.fires.iter().any(|f| f.0 == aid) {
+                        mon.hit("C08", format!("`{l}`: the request returned Ok when the simulation time was already {now}, with deadline {t} <= {now}, and its action has not run: accepted although not strictly in the future (the deadline was validated outside the queue lock)"));
+                    }
+                }
+                if r1 != expect {
+                    mon.hit("C08", format!("`{l}`: the request issued from another thread returned `{r1}`, the statement requires `{expect}` (it was inside the scheduler before the stepping call started)"));
+                }
+                format!("{r1} ; {r}")
+            }
+            None => r,
+        };
         hints.lock().unwrap().push(hint);
         push(r);
     }
@@ -857,9 +946,15 @@ fn gen_case(rng: &mut Rng, tier: Tier, focus: &str) -> Case {
                     live_keys.push(key);
                     all_keys.push(key);
                 }
-                cmds.push(format!("sch m {m} {dk} {dl} {kind} {p} {aid} {key}"));
                 let t = if dk == "abs" { dl } else { est_now + dl };
                 horizon_marks.push(t);
+                if rng.chance(1, if focus == "C08" { 25 } else { 200 }) {
+                    // the same request, issued from another thread while the simulation thread starts a step
+                    cmds.push(format!("race m {m} {dk} {dl} {kind} {p} {aid} {key} then step"));
+                    est_now = horizon_marks.iter().copied().filter(|t| *t > est_now).min().unwrap_or(est_now);
+                } else {
+                    cmds.push(format!("sch m {m} {dk} {dl} {kind} {p} {aid} {key}"));
+                }
                 // handler script for this aid
                 gen_script(rng, aid, &mut next_aid, &mut next_key, &mut hlines, &periods, 0, kind != "per" && kind != "kper");
             }
